@@ -6,19 +6,28 @@
 //!   maxhtlc <kind> <a> <b> <shift>                max_htlc_from_capacity  -> <n>
 //!   recompute <value> <n> (<base> <prop> <min>)*  PaymentPath::update_value_and_recompute_fees on a
 //!                                                 synthetic path -> ok <ret> <fee_msat>* | panic
+//!   maxfinal <pow> <n> (<base> <prop> <max|-> <used>)*  PaymentPath::max_final_value_msat on a synthetic path of
+//!                                                 private-hop candidates -> ok <idx> <value> | err <idx> | panic
 //! model `c16router` (public `find_route` on random `NetworkGraph`s built from unsigned announcements
-//! / partial announcements and unsigned channel updates; no first hops, hints or blinded paths in v1):
-//!   route <req> X <k> <scid>* G <n> <chan>* R <k> (<nhops> (<scid> <node> <fee_msat> <cltv>)*)*
+//! / partial announcements and unsigned channel updates; v2: first hops, route hints, blinded tails, fed scorer, in-flight HTLCs):
+//!   route <req> X <k> <scid>* B <k> <idx>* G <n> <chan>* R <k> (<nhops> (<scid> <node> <fee_msat> <cltv> <blinded>)*)*
 //!        impl answer: the harness's own re-check of the property's clauses on the real route
 //!        (`valid` / `invalid <clause>`) and `recur=eq|skip` (claim: the path's fee_msats are what the
 //!        fee recurrence yields for the delivered value); the Lean driver answers with the verified
 //!        checker `routeValid` and its own run of the recurrence.
-//!   noroute <req> X <k> <scid>* G <n> <chan>*     router returned Err -> ref=found|ref=none (reference
-//!        single-path reachability, same definition on both sides)
-//!   <req>  = <payer> <payee> <amt> <maxfee|-> <maxcltv> <maxpaths> <maxlen> <finalcltv> <mpp> <satpow> <scorer> <seed>
-//!            (the last four only make a line replayable: `c16 c16replay --replay FILE`; the model ignores them)
-//!   <chan> = <scid> <src> <dst> <enabled> <htlcmin> <htlcmax> <cap_msat|-> <base> <prop> <cltv>
-//! The graph on the line is dumped from `NetworkGraph::read_only()` (not from what the generator sent).
+//!   noroute <req> X <k> <scid>* B <k> <idx>* G <n> <chan>*   router returned Err -> ref=found|ref=none (reference
+//!        single-path reachability over the same candidate kinds, same definition on both sides)
+//!   matchscid <alias|-> <scid|-> <hint_scid>      the property's reading (alias OR real scid) against the generated
+//!                                                 `matches_an_scid` of get_route step (1) -> 0|1
+//!   <req>  = <payer> <payee> <amt> <maxfee|-> <maxcltv> <maxpaths> <maxlen> <finalcltv> <hasfirst> <mpp> <satpow> <scorer> <seed>
+//!            (the last four only make a line replayable: `c16 c16replay --replay FILE`; the model ignores them;
+//!             scorer 3 = fed ProbabilisticScorer, +10 = InFlightHtlcs — neither is reproduced by the replay)
+//!   <chan> = <kind> <scid> - <src> <dst> <enabled> <htlcmin> <htlcmax|-> <cap_msat|-> <base> <prop> <cltv>   RAW data of one candidate;
+//!            kind p PublicHop, h PrivateHop (hint hop), b Blinded / o OneHopBlinded (scid = index of the blinded path, dst = 999);
+//!            a FirstHop gives the raw ChannelDetails ids: f <outbound_scid_alias|-> <short_channel_id|-> <payer> <peer> <is_usable>
+//!            <next_outbound_htlc_minimum_msat> <next_outbound_htlc_limit_msat> - 0 0 0
+//!   a BlindedTail is the last element of its path: <index of the blinded path> 999 <final_value_msat> 0 1
+//! The public candidates on the line are dumped from `NetworkGraph::read_only()` (not from what the generator sent).
 use bitcoin::amount::Amount;
 use bitcoin::constants::ChainHash;
 use bitcoin::secp256k1::{PublicKey, Secp256k1, SecretKey};
@@ -206,6 +215,8 @@ const FLAG_PATH_COUNT_ROUNDING: bool = false;
 const FLAG_BLINDED_INTRO_STITCH: bool = false;
 /// Candidate finding "merging identical paths rounds the fee up past a limit" (see `record`): `true` makes it a failure.
 const FLAG_MERGE_ROUNDING: bool = false;
+/// Candidate finding "raise to a hop's own minimum is not booked as used liquidity" (see `record`): `true` makes it a failure.
+const FLAG_OWN_MINIMUM_RAISE: bool = false;
 /// virtual node index of the payee of a blinded request
 const BLINDED_PAYEE: usize = 999;
 /// One candidate the router may use, with the RAW data (ChannelUpdateInfo / ChannelDetails / RouteHintHop / BlindedPayInfo).
@@ -265,7 +276,7 @@ fn recheck(g: &[Chan], q: &Req, r: &[Vec<Hop>]) -> Result<(), (&'static str, Str
 	if r.len() as u64 > q.maxpaths { return Err(("paths", format!("{} paths > max_path_count {}", r.len(), q.maxpaths))); }
 	let delivered: u128 = r.iter().map(|p| p.last().map_or(0, |h| h.fee as u128)).sum();
 	let over = delivered.saturating_sub(q.amt as u128);
-	let mut uses: Vec<(Option<usize>, u128)> = vec![];
+	let mut uses: Vec<(Option<usize>, u128, u128)> = vec![]; // (candidate, counted amount, amount)
 	let mut chain_err: Option<String> = None;
 	for (pi, path) in r.iter().enumerate() {
 		if path.is_empty() { chain_err.get_or_insert(format!("path {} empty", pi)); continue; }
@@ -281,6 +292,7 @@ fn recheck(g: &[Chan], q: &Req, r: &[Vec<Hop>]) -> Result<(), (&'static str, Str
 			let from = if i == 0 { q.payer } else { path[i - 1].node };
 			let c = match chans[i] { Some(c) => c, None => { chain_err.get_or_insert(format!("path {} hop {}: no usable {} {} from node {} to node {} among the candidates{}", pi, i, if path[i].blinded { "blinded path" } else { "channel" }, path[i].scid, from, path[i].node,
 				if q.has_first && from == q.payer { " (first_hops supplied: only a first-hop channel, by alias or scid, may be used)" } else { "" })); break; } };
+			if path[i].blinded && i + 1 < n { chain_err.get_or_insert(format!("path {} hop {}: a blinded tail that is not the last element", pi, i)); }
 			if !usable_edge(g, c) { chain_err.get_or_insert(format!("path {} hop {}: channel {} has no policy for the reverse direction (not usable)", pi, i, c.scid)); }
 			if !c.enabled { chain_err.get_or_insert(format!("path {} hop {}: channel {} direction disabled", pi, i, c.scid)); }
 			if (c.min() as u128) > amts[i] { chain_err.get_or_insert(format!("path {} hop {}: amount {} below htlc_minimum {} of {:?} {}", pi, i, amts[i], c.min(), c.kind, c.scid)); }
@@ -313,7 +325,7 @@ fn recheck(g: &[Chan], q: &Req, r: &[Vec<Hop>]) -> Result<(), (&'static str, Str
 		}
 		for i in 0..n {
 			let after: u128 = raise_at[i + 1..].iter().sum();
-			uses.push((idx[i], amts[i].saturating_sub(after)));
+			uses.push((idx[i], amts[i].saturating_sub(after), amts[i]));
 		}
 	}
 	if let Some(e) = chain_err { return Err(("chain", e)); }
@@ -323,7 +335,11 @@ fn recheck(g: &[Chan], q: &Req, r: &[Vec<Hop>]) -> Result<(), (&'static str, Str
 		// joint use of the candidate: all hops that RESOLVE to it (a first-hop channel named by its alias in one path and by its real scid in another is one channel)
 		let u: u128 = uses.iter().filter(|u| u.0.map_or(false, |i| i == ci || g[i] == *c)).map(|u| u.1).sum();
 		if u > c.limit() as u128 {
-			return Err(("capacity", format!("excess={} ", u - c.limit() as u128) + &match c.kind {
+			// signature of the candidate finding "raise to a hop's OWN minimum is not booked as used liquidity": several paths share the
+			// candidate and one of them carries exactly its minimum
+			let mine: Vec<&(Option<usize>, u128, u128)> = uses.iter().filter(|u| u.0.map_or(false, |i| i == ci || g[i] == *c)).collect();
+			let own = if mine.len() >= 2 && c.min() >= 1 && mine.iter().any(|u| u.2 == c.min() as u128) { "[own-minimum-raise] " } else { "" };
+			return Err(("capacity", format!("excess={} {}", u - c.limit() as u128, own) + &match c.kind {
 				Kind::Pub => format!("channel {} {}->{} carries {} msat jointly > min(htlc_maximum {}, capacity {:?})", c.scid, c.src, c.dst, u, c.hmax, c.cap),
 				Kind::First => format!("first-hop channel (outbound scid {} / real scid {:?}) {}->{} carries {} msat jointly > next_outbound_htlc_limit_msat {}", c.scid, c.alt, c.src, c.dst, u, c.hmax),
 				_ => format!("{:?} candidate {} {}->{} carries {} msat jointly > htlc_maximum {}", c.kind, c.scid, c.src, c.dst, u, c.limit()),
@@ -570,7 +586,7 @@ fn ample_path_ext(g: &[Chan], q: &Req, n_nodes: usize, mult: u128, all: bool) ->
 	Some(path)
 }
 
-struct Stats { n_ok: u64, n_err: u64, n_panic: u64, n_multi: u64, n_raise: u64, n_first: u64, n_hint: u64, n_blinded: u64, n_alias_real: u64, n_probe: u64, n_bypass: u64, bypass_example: String, n_all_ample: u64, n_count_rounding: u64, count_rounding_example: String, n_stitch: u64, stitch_example: String, n_merge: u64, merge_example: String,
+struct Stats { n_ok: u64, n_err: u64, n_panic: u64, n_multi: u64, n_raise: u64, n_first: u64, n_hint: u64, n_blinded: u64, n_alias_real: u64, n_probe: u64, n_bypass: u64, bypass_example: String, n_all_ample: u64, n_count_rounding: u64, count_rounding_example: String, n_stitch: u64, stitch_example: String, n_merge: u64, merge_example: String, n_ownmin: u64, ownmin_example: String,
 	debug_asserts: std::collections::BTreeMap<String, (u64, String)> }
 
 /// classify and record one find_route outcome (`ext`: an extended request — first hops / hints / blinded tails / fed scorer)
@@ -626,6 +642,7 @@ fn record(rec: &mut Rec, st: &mut Stats, w: &World, g: &[Chan], gs: &str, q: &Re
 			if r.len() > 1 { st.n_multi += 1; }
 			let op = format!("route {} {} {}", req_str(q), gs, route_str(&r));
 			let mut bypass = false;
+			let mut ownmin = false;
 			let verdict = match recheck(g, q, &r) {
 				Ok(()) => "valid".to_string(),
 				// CANDIDATE FINDING (reported to the integrator, see the run notes): on a PROBE request — a route hint (A) whose source is
@@ -647,6 +664,14 @@ fn record(rec: &mut Rec, st: &mut Stats, w: &World, g: &[Chan], gs: &str, q: &Re
 					bypass = true; st.n_merge += 1;
 					if st.merge_example.is_empty() { st.merge_example = format!("{} | {}", detail, op); }
 					format!("invalid {}", clause) },
+				// CANDIDATE FINDING (reported to the integrator, see the run notes): update_value_and_recompute_fees raises a hop to ITS OWN
+				// htlc_minimum (the surplus is paid as fee to the next node), but get_route books `value_contribution_msat + hop.next_hops_fee_msat`
+				// as used liquidity of that hop — without the raise — so a second path may use the "remaining" liquidity and the two together
+				// exceed the candidate's limit (seen on first hops whose next_outbound_htlc_minimum_msat is above the path's value).
+				Err((clause, detail)) if ext && !FLAG_OWN_MINIMUM_RAISE && clause == "capacity" && detail.contains("[own-minimum-raise] ") => {
+					bypass = true; ownmin = true; st.n_ownmin += 1;
+					if st.ownmin_example.is_empty() { st.ownmin_example = format!("{} | {}", detail, op); }
+					format!("invalid {}", clause) },
 				Err((clause, detail)) => {
 					let tag = if clause == "chain" && detail.contains("is paid") && final_raise_signature(g, q, &r, &detail) { "KF-C16-1 final-hop raised to htlc_minimum, upstream fee computed without the raise: " }
 						else if clause == "capacity" && r.iter().enumerate().any(|(i, _)| final_raise_signature(g, q, &r, &format!("path {} ", i))) { "KF-C16-6 htlc_maximum exceeded after raises to htlc_minimum (final-hop raise not propagated upstream, no re-check): " } else { "" };
@@ -663,7 +688,8 @@ fn record(rec: &mut Rec, st: &mut Stats, w: &World, g: &[Chan], gs: &str, q: &Re
 			let over = r.iter().map(|p| p.last().unwrap().fee as u128).sum::<u128>() > q.amt as u128;
 			let class = format!("route:{}{}{}{}{}{}{}", if r.len() > 1 { "mpp" } else { "single" }, match r.iter().map(|p| p.iter().filter(|h| !h.blinded).count()).max().unwrap_or(0) { 1 => "/direct", 2 | 3 => "/2-3hops", _ => "/4+hops" }, if raised { "/at-minimum" } else { "" }, if over { "/overpays" } else { "" },
 				if first { "/first-hop" } else { "" }, if hint { "/hint" } else { "" }, if blinded { "/blinded-tail" } else { "" });
-			let class = if bypass && verdict == "invalid capacity" { "route:CANDIDATE-FINDING(limit exceeded by 1-2 msat after identical paths were merged and the fee recomputed on the sum; extended MPP requests only)".to_string() }
+			let class = if bypass && ownmin { "route:CANDIDATE-FINDING(limit exceeded jointly: a path raised to the candidate's own minimum is not booked as used liquidity; extended requests only)".to_string() }
+				else if bypass && verdict == "invalid capacity" { "route:CANDIDATE-FINDING(limit exceeded by 1-2 msat after identical paths were merged and the fee recomputed on the sum; extended MPP requests only)".to_string() }
 				else if bypass { "route:CANDIDATE-FINDING(hint naming a graph channel / sourced at the payer bypasses first_hops or `enabled`; probe requests only)".to_string() } else { class };
 			rec.case(&op, &format!("{} recur={}", verdict, recur_claim(g, q, &r)), &class, true);
 			if ext {
@@ -691,7 +717,9 @@ fn record(rec: &mut Rec, st: &mut Stats, w: &World, g: &[Chan], gs: &str, q: &Re
 					// extended requests: flagged only when EVERY candidate the router may consider is ample (no tight alternative
 					// exists, so the mechanism of KF-C16-5 cannot be the cause)
 					let mut nodes: HashSet<usize> = g.iter().flat_map(|c| [c.src, c.dst]).collect(); nodes.insert(q.payer); nodes.insert(q.payee);
-					if let Some(path) = ample_path_ext(g, q, nodes.len(), mult, true) {
+					// (not on probe requests: their hint over a graph scid is replaced by the PublicHop candidate, it is no candidate itself)
+					if probe { class = "noroute:ext,probe,ref-found".to_string(); }
+					else if let Some(path) = ample_path_ext(g, q, nodes.len(), mult, true) {
 						let path_s: String = path.iter().map(|c| format!(" {}{}:{}->{}", c.kind.tag(), c.scid, c.src, c.dst)).collect();
 						class = "noroute:ext,ref-found,all-ample(FLAGGED)".to_string();
 						rec.oracle_fail(format!("router reports failure (\"{}\") although a sufficient single path through the supplied first hops / hints / blinded paths exists{} and every candidate is ample (fee/CLTV/length limits cannot bind) | {}", e, path_s, op));
@@ -919,7 +947,7 @@ fn router_model(args: &Args) {
 	let n_graphs = if args.thorough { 8000 } else { 1500 } * args.scale;
 	let per_graph = if args.thorough { 14 } else { 10 };
 	let per_graph_ext = if args.thorough { 12 } else { 8 };
-	let mut st = Stats { n_ok: 0, n_err: 0, n_panic: 0, n_multi: 0, n_raise: 0, n_first: 0, n_hint: 0, n_blinded: 0, n_alias_real: 0, n_probe: 0, n_bypass: 0, bypass_example: String::new(), n_all_ample: 0, n_count_rounding: 0, count_rounding_example: String::new(), n_stitch: 0, stitch_example: String::new(), n_merge: 0, merge_example: String::new(), debug_asserts: std::collections::BTreeMap::new() };
+	let mut st = Stats { n_ok: 0, n_err: 0, n_panic: 0, n_multi: 0, n_raise: 0, n_first: 0, n_hint: 0, n_blinded: 0, n_alias_real: 0, n_probe: 0, n_bypass: 0, bypass_example: String::new(), n_all_ample: 0, n_count_rounding: 0, count_rounding_example: String::new(), n_stitch: 0, stitch_example: String::new(), n_merge: 0, merge_example: String::new(), n_ownmin: 0, ownmin_example: String::new(), debug_asserts: std::collections::BTreeMap::new() };
 	let (mut n_ext, mut n_fed, mut n_inflight) = (0u64, 0u64, 0u64);
 	// the generated `matches_an_scid` (get_route step (1)) against the property's reading: a hint names our channel by alias OR real scid
 	for _ in 0..if args.thorough { 2000 } else { 300 } {
@@ -1024,8 +1052,8 @@ fn router_model(args: &Args) {
 			}
 		}
 	}
-	rec.notes.insert("rule".into(), format!("random NetworkGraphs (4–40 nodes, parallel channels, unknown/known capacities via UTXO stub or partial announcement, zero/extreme fees, disabled directions, missing updates, htlc min/max around the amount), {} plain requests each (amount 1 msat … beyond capacity; max fee / CLTV / path count / path length / saturation / excluded channels varied; ProbabilisticScorer or fixed penalty) + {} EXTENDED requests each ({} in total: first_hops = 1–3 peers x 1–3 ChannelDetails with outbound alias != real scid (some announced channels of the graph), limits/minimums around the amount; 0–3 route hints of 1–3 hops incl. hints naming one of OUR channels by alias or by real scid; or 1–3 blinded tails (raw payinfo or a real BlindedPaymentPath::new, one-hop paths, introduction node = payer / a first-hop peer / any node); excluded channels and blinded-path indices; {} with a ProbabilisticScorer fed with successes/failures of earlier routes, {} with InFlightHtlcs of earlier routes); graph dumped from NetworkGraph::read_only(); every case distinct by op text. routes={} (mpp {} / with a hop at its minimum {} / through a first hop {} (named by the real scid {}) / through a hint hop {} / with a blinded tail {}), router errors={}, panics={}; the completeness oracle of extended requests (a single path through first hops / hints / blinded paths exists and EVERY candidate is ample) was armed on {} requests that returned a route (and is a failure with the request as input when the router returns an error). CANDIDATE FINDING (route hints bypass the graph walk's filters): {} probe requests carry a route hint (A) whose source is the payer over a channel that is not ours, (B) whose scid is a public channel of the payer missing from first_hops, or (C) whose scid is a public channel whose direction towards the hint's target is disabled; on {} of them find_route returned a route whose FIRST hop is that hint / graph channel although first_hops was supplied (A, B) or that uses the disabled direction (C) (last_hop_candidates are not filtered by `first_hops.is_none() || source != our_node_id` / `direction().enabled`); both checkers answer `invalid chain`; not counted as a failure until the integrator decides (FLAG_FIRST_HOP_BYPASS); the main generator avoids these two hint shapes. Example: {}. CANDIDATE FINDING (max_path_count): on {} extended requests find_route hit `assertion failed: paths.len() <= payment_params.max_path_count` (a route with too many paths in a release build): PaymentPath::max_final_value_msat rounds a path's contribution below minimal_value_contribution_msat when fees follow the limiting hop; counted as discarded, not as a failure, until the integrator decides (FLAG_PATH_COUNT_ROUNDING). Example: {}. CANDIDATE FINDING (max_path_length): on {} blinded requests with a blinded path whose introduction node is a first-hop peer, Route::debug_assert_route_meets_params reported `Path had a length of N+k, which is greater than the maximum we're allowed (N)` (or get_route's `debug_assert!(*used_liquidity_msat <= hop_max_msat)` fired on the stitched path): the FirstHop entries added by `blind_intros_added` are stitched to a longer continuation found later for that peer; counted as discarded until the integrator decides (FLAG_BLINDED_INTRO_STITCH). Example: {}. CANDIDATE FINDING (merge rounding): on {} extended MPP requests a candidate's limit was exceeded by 1–2 msat: get_route step (8) merges paths over identical hops and recomputes the fees on the sum, which can round a proportional fee up by a msat; both checkers answer `invalid capacity`; not a failure until the integrator decides (FLAG_MERGE_ROUNDING). Example: {}",
-		per_graph, per_graph_ext, n_ext, n_fed, n_inflight, st.n_ok, st.n_multi, st.n_raise, st.n_first, st.n_alias_real, st.n_hint, st.n_blinded, st.n_err, st.n_panic, st.n_all_ample, st.n_probe, st.n_bypass, if st.bypass_example.len() > 2500 { &st.bypass_example[..2500] } else { &st.bypass_example[..] }, st.n_count_rounding, if st.count_rounding_example.len() > 2500 { &st.count_rounding_example[..2500] } else { &st.count_rounding_example[..] }, st.n_stitch, if st.stitch_example.len() > 2500 { &st.stitch_example[..2500] } else { &st.stitch_example[..] }, st.n_merge, if st.merge_example.len() > 2500 { &st.merge_example[..2500] } else { &st.merge_example[..] }));
+	rec.notes.insert("rule".into(), format!("random NetworkGraphs (4–40 nodes, parallel channels, unknown/known capacities via UTXO stub or partial announcement, zero/extreme fees, disabled directions, missing updates, htlc min/max around the amount), {} plain requests each (amount 1 msat … beyond capacity; max fee / CLTV / path count / path length / saturation / excluded channels varied; ProbabilisticScorer or fixed penalty) + {} EXTENDED requests each ({} in total: first_hops = 1–3 peers x 1–3 ChannelDetails with outbound alias != real scid (some announced channels of the graph), limits/minimums around the amount; 0–3 route hints of 1–3 hops incl. hints naming one of OUR channels by alias or by real scid; or 1–3 blinded tails (raw payinfo or a real BlindedPaymentPath::new, one-hop paths, introduction node = payer / a first-hop peer / any node); excluded channels and blinded-path indices; {} with a ProbabilisticScorer fed with successes/failures of earlier routes, {} with InFlightHtlcs of earlier routes); graph dumped from NetworkGraph::read_only(); every case distinct by op text. routes={} (mpp {} / with a hop at its minimum {} / through a first hop {} (named by the real scid {}) / through a hint hop {} / with a blinded tail {}), router errors={}, panics={}; the completeness oracle of extended requests (a single path through first hops / hints / blinded paths exists and EVERY candidate is ample) was armed on {} requests that returned a route (and is a failure with the request as input when the router returns an error). CANDIDATE FINDING (route hints bypass the graph walk's filters): {} probe requests carry a route hint (A) whose source is the payer over a channel that is not ours, (B) whose scid is a public channel of the payer missing from first_hops, or (C) whose scid is a public channel whose direction towards the hint's target is disabled; on {} of them find_route returned a route whose FIRST hop is that hint / graph channel although first_hops was supplied (A, B) or that uses the disabled direction (C) (last_hop_candidates are not filtered by `first_hops.is_none() || source != our_node_id` / `direction().enabled`); both checkers answer `invalid chain`; not counted as a failure until the integrator decides (FLAG_FIRST_HOP_BYPASS); the main generator avoids these two hint shapes. Example: {}. CANDIDATE FINDING (max_path_count): on {} extended requests find_route hit `assertion failed: paths.len() <= payment_params.max_path_count` (a route with too many paths in a release build): PaymentPath::max_final_value_msat rounds a path's contribution below minimal_value_contribution_msat when fees follow the limiting hop; counted as discarded, not as a failure, until the integrator decides (FLAG_PATH_COUNT_ROUNDING). Example: {}. CANDIDATE FINDING (max_path_length): on {} blinded requests with a blinded path whose introduction node is a first-hop peer, Route::debug_assert_route_meets_params reported `Path had a length of N+k, which is greater than the maximum we're allowed (N)` (or get_route's `debug_assert!(*used_liquidity_msat <= hop_max_msat)` fired on the stitched path): the FirstHop entries added by `blind_intros_added` are stitched to a longer continuation found later for that peer; counted as discarded until the integrator decides (FLAG_BLINDED_INTRO_STITCH). Example: {}. CANDIDATE FINDING (merge rounding): on {} extended MPP requests a candidate's limit was exceeded by 1–2 msat: get_route step (8) merges paths over identical hops and recomputes the fees on the sum, which can round a proportional fee up by a msat; both checkers answer `invalid capacity`; not a failure until the integrator decides (FLAG_MERGE_ROUNDING). Example: {}. CANDIDATE FINDING (own-minimum raise): on {} extended requests several paths share a candidate, one of them raised to the candidate's own htlc_minimum, and together they exceed its limit: used_liquidities books `value_contribution_msat + next_hops_fee_msat` without the raise; both checkers answer `invalid capacity`; not a failure until the integrator decides (FLAG_OWN_MINIMUM_RAISE). Example: {}",
+		per_graph, per_graph_ext, n_ext, n_fed, n_inflight, st.n_ok, st.n_multi, st.n_raise, st.n_first, st.n_alias_real, st.n_hint, st.n_blinded, st.n_err, st.n_panic, st.n_all_ample, st.n_probe, st.n_bypass, if st.bypass_example.len() > 2500 { &st.bypass_example[..2500] } else { &st.bypass_example[..] }, st.n_count_rounding, if st.count_rounding_example.len() > 2500 { &st.count_rounding_example[..2500] } else { &st.count_rounding_example[..] }, st.n_stitch, if st.stitch_example.len() > 2500 { &st.stitch_example[..2500] } else { &st.stitch_example[..] }, st.n_merge, if st.merge_example.len() > 2500 { &st.merge_example[..2500] } else { &st.merge_example[..] }, st.n_ownmin, if st.ownmin_example.len() > 2500 { &st.ownmin_example[..2500] } else { &st.ownmin_example[..] }));
 	for (i, (k, (n, ex))) in st.debug_asserts.iter().enumerate() {
 		rec.notes.insert(format!("debug_assert_{}", i + 1), format!("find_route hit its own debug assertion: {}, {} times (discarded, not a C16 clause); example input: {}", k, n, if ex.len() > 1500 { &ex[..1500] } else { &ex[..] }));
 	}
